@@ -380,11 +380,14 @@ class Real:
             return "none"
         return "sym:" + enc_ir_shape(sym)
 
-    def ev_identity(self, ishape, oshape):
+    def ev_identity(self, ishape, oshape, graph_input=False):
         cf, ir = self.cf, self.ir
         state = cf.OptimizerState()
         x = self.value(shape=ishape) if ishape is not None else ir.Value(name="x_noshape", type=ir.TensorType(ir.DataType.FLOAT))
         node = self.node("Identity", [x])
+        if graph_input:
+            self._keep = ir.Graph([x], [node.outputs[0]], nodes=[node], opset_imports={"": 18})
+            assert x.is_graph_input()
         if oshape is not None:
             node.outputs[0].shape = ir.Shape(list(oshape))
         import logging
